@@ -276,6 +276,10 @@ class Program:
             b = self.fn_index.get((sts, trn, targ, meth))
             if b is None and targ:
                 b = self.fn_index.get((sts, trn, "", meth))
+            if b is None:
+                c2 = [v for k, v in self.fn_index.items() if k[0] == sts and k[1] == trn and k[3] == meth]
+                if len(c2) == 1:
+                    b = c2[0]
             if b is not None:
                 return b, st
             b = self.fn_index.get((None, trn, "", meth))    # trait default method
@@ -591,6 +595,8 @@ class Interp:
     # ---------------------------------------------------------------- constants
     def const(self, st, fr, t):
         t = t.strip()
+        if t.startswith("ZeroSized: "):
+            t = t[len("ZeroSized: "):].strip()
         if t == "()":
             return UNIT
         if t in ("true", "false"):
